@@ -66,6 +66,11 @@ TEMPLATES = [
     "import os\n\ndef {f}():\n    return os.getcwd()\n\n{v} = 10\n\nclass {C}:\n    pass\n",
     "class {C}:\n    def {m}(self):\n        return 1\n\n{v} = {C}()\n{w} = {v}.{m}()\n",
     "{v}, {w} = 1, 2\n",
+    "import sys\n{v}, *{w} = sys.argv\n",
+    "[{v}, {w}] = 1, 2\n",
+    "({v}, [{w}, *rest_{attr}]) = 0, [1, 2, 3]\n",
+    "{v} = {w} = 4\n",
+    "{v} = 1\n{v} += 2\n{w}: int\n",
     "for {v} in range(3):\n    pass\n{w} = 0\n",
     "def {f}():\n    {v} = 'a fairly long constant string'\n    return {v}\n",
     "class {C}:\n    def {m}(self):\n        text = str(1)\n        return text\n\n    def {n}(self):\n        return 'x'\n\n{v} = 3\n",
@@ -169,12 +174,57 @@ class Engine:
 
 CONSTANT_value = 7
 otherValue = 8
+verboseFlag = False
+retryCount = 1
+tempValue = 0
+
+
+def fetchRemote():
+    return "remote"
+
+
+def report():
+    return (verboseFlag, retryCount, fetchRemote())
+
+
+class Gauge:
+    def __init__(self, level):
+        self.level = level
+
+    def __repr__(self):
+        return "Gauge(%d)" % self.level
+
+    def __len__(self):
+        return self.level
+
+    def __eq__(self, other):
+        return self.level == other.level
+
+
+def exported_only():
+    return 1
+
+
+class ExportedOnly:
+    pass
+
+
+def exportedAlias():
+    return 2
 '''
 USES = {
     "run": ("from lib import run", "print(run('x'))"), "join": ("import lib", "print(lib.join(['a', 'b']))"), "describe": ("from lib import describe as d", "print(d(3))"),
     "double": ("import lib as L", "print(L.double(4))"), "unusedHelper": ("from lib import unusedHelper", "print(unusedHelper(1))"),
     "Engine": ("from lib import Engine", "print(Engine().start())"), "Engine.stopNow": ("import lib", "print(lib.Engine().stopNow())"), "Engine.make": ("from lib import Engine", "print(Engine.make().cylinders)"),
     "CONSTANT_value": ("from lib import CONSTANT_value", "print(CONSTANT_value)"), "otherValue": ("import lib", "print(lib.otherValue)"),
+    # store-only / augmented / monkey-patching access: the client never READS the name
+    "store:verboseFlag": ("import lib", "lib.verboseFlag = True\nprint(lib.report())"), "augmented:retryCount": ("import lib", "lib.retryCount += 2\nprint(lib.report())"),
+    "patch:fetchRemote": ("import lib", "lib.fetchRemote = lambda: 'stub'\nprint(lib.report())"), "del:tempValue": ("import lib", "del lib.tempValue\nprint(hasattr(lib, 'tempValue'))"),
+    # a preserved class used only through its constructor and special methods
+    "ctor:Gauge": ("from lib import Gauge", "print(Gauge(3), len(Gauge(4)), Gauge(2) == Gauge(2))"),
+    # names only imported (re-exported), never used
+    "reexport:exported_only": ("from lib import exported_only, ExportedOnly", "print('imported')"), "reexport-alias": ("from lib import exportedAlias as ea", "print('imported alias')"),
+    # getattr / hasattr with a literal name is beyond the tool's reach by design: not part of the space
 }
 
 
